@@ -151,6 +151,56 @@ func scenario(cfg wl.Config, calls []call) *mc.Scenario {
 	return &mc.Scenario{Name: name, Body: body, Check: check, Model: sched.Deviation, NoCache: true}
 }
 
+// concurrentScenario: n goroutines call Invoke on one connection at the same time, each with its
+// own metadata (same encoded length, so that any shared scratch buffer would be reused).
+func concurrentScenario(cfg wl.Config, n int) *mc.Scenario {
+	name := fmt.Sprintf("metadata-concurrent[%s | callers=%d]", cfg, n)
+	body := func() {
+		seen := map[string]string{}
+		handler := func(env *wl.Env, stream drpc.Stream, rpc string) error {
+			m, ok := drpcmetadata.Get(stream.Context())
+			seen[rpc] = render(m, ok)
+			return wl.Echo(stream, rpc)
+		}
+		env := wl.NewEnv(cfg, handler)
+		env.Facts["seen"] = seen
+		finished := 0
+		for i := 0; i < n; i++ {
+			i := i
+			vs.Go(fmt.Sprintf("caller%d", i), func() {
+				ctx := drpcmetadata.AddPairs(context.Background(), map[string]string{"caller": fmt.Sprintf("id-%d", i)})
+				if i == n-1 {
+					ctx = context.Background() // the last caller attaches nothing
+				}
+				req, out := enc.Payload(byte('A'+i), 0, 0, enc.MinPayload), []byte(nil)
+				rpc := fmt.Sprintf("/c%d", i)
+				if err := env.Conn.Invoke(ctx, rpc, enc.Bytes{}, &req, &out); err != nil {
+					env.Failf("concurrent call %d failed: %v", i, err)
+				} else if string(out) != rpc+":"+string(req) {
+					env.Failf("concurrent call %d got a foreign reply", i)
+				}
+				finished++
+			})
+		}
+		sched.Quiesce()
+		if finished != n {
+			env.Failf("concurrent calls never finished; blocked=%s", wl.BlockedSummary(sched.BlockedNow()))
+		}
+		for i := 0; i < n; i++ {
+			want := fmt.Sprintf("{%q=%q;}", "caller", fmt.Sprintf("id-%d", i))
+			if i == n-1 {
+				want = "<none>"
+			}
+			if got := seen[fmt.Sprintf("/c%d", i)]; got != want {
+				env.Failf("handler of concurrent call %d saw metadata %s, its caller attached %s", i, got, want)
+			}
+		}
+		sched.Observef("finished=%d", finished)
+		env.Teardown()
+	}
+	return &mc.Scenario{Name: name, Body: body, Check: wl.Basic, Model: sched.Deviation, NoCache: true}
+}
+
 // a hard-cancelled earlier call may legitimately close the connection
 func anyCancelBefore(calls []call, i int) bool {
 	for _, c := range calls[:i] {
@@ -194,6 +244,13 @@ func plans(tier string) []mc.Plan {
 				}
 			}
 		}
+	}
+	for _, n := range []int{3, 4} {
+		bounds := []int{0, 1}
+		if tier == "thorough" && n == 3 {
+			bounds = []int{0, 1, 2}
+		}
+		ps = append(ps, mc.Plan{Scen: concurrentScenario(soft, n), Bounds: bounds, Split: len(bounds) > 2})
 	}
 	if tier == "thorough" {
 		tiny := wl.Config{Soft: true, Pipe: tr.Options{Cap: -1, ReadMax: 1}, SplitSize: 3, WriterBuf: 1}
